@@ -116,6 +116,9 @@ func (d *Disk) opportunity(site string) error {
 	if d.Mode == "short" {
 		return nil // short writes are injected by the file wrapper's Write only
 	}
+	if (d.Mode == "oskill") != strings.HasPrefix(site, "os.") {
+		return nil // the operating-system level opportunities have their own mode and their own numbering
+	}
 	idx := d.opps
 	d.opps++
 	if idx != d.ArmAt {
@@ -126,7 +129,7 @@ func (d *Disk) opportunity(site string) error {
 	d.sim.Stats.FaultsFired[d.Mode+"@"+siteKind(site)]++
 	d.sim.logf("FAULT %s at %s", d.Mode, site)
 	switch d.Mode {
-	case "kill", "power":
+	case "kill", "power", "oskill":
 		d.crash()
 		runtime.Goexit()
 	case "eio":
